@@ -6,6 +6,7 @@ from ..model import AnalysisError, stmt_text
 from ..symval import Evaluator, Tup, Obj, CallV, Str
 from ..symcheck import Oracle, sym_ellipsoid, sym_projection, check_equal, compare_values, show
 from ..rules import ThreadRule, where, mentions
+from . import common
 from ..mutate import replace_in_function, substitute
 
 META = {
@@ -270,6 +271,7 @@ def lsf_rules(repo, rep):
 
 def run(repo, rep):
     alg.reset()
+    common.state_rule(repo, rep, [('geodepy.geodesy', 'vincdir_utm'), ('geodepy.geodesy', 'vincinv_utm'), ('geodepy.geodesy', 'line_sf')])
     rep.trust('opaque call atoms carry every formal parameter of the callee (defaults explicit); sv/alg.py normal forms')
     rep.trust('reference: Deakin (2010) Traverse computations on the ellipsoid and on the UTM projection, eq. 13')
     thread_rules(repo, rep)
